@@ -230,54 +230,79 @@ Proof. intros H. unfold some, raw. change (enc_cdict key_chan m) with (JObj (map
 Section Core.
 Variable rs : resolver.
 Variable Inv : lstate -> Prop.
+(* Step: how the loader state may move during a decode; G st a: what is known about a node a of a returned object
+   relative to the state (instantiated with "a named node is the cache entry of its identifier") *)
+Variable Step : lstate -> lstate -> Prop.
+Variable G : lstate -> pt -> Prop.
 Hypothesis Inv_bump : forall st, Inv st -> Inv (bump st).
+Hypothesis Step_trans : forall a b c, Step a b -> Step b c -> Step a c.
+Hypothesis Step_bump : forall st, Step st (bump st).
+Hypothesis G_mono : forall a b x, Step a b -> G a x -> G b x.
+Hypothesis G_unnamed : forall st a, pt_id a = None -> G st a.
 
 Definition res_ok (n : pt) : Prop :=
   forall i, pt_id n = Some i -> forall st, Inv st ->
-  exists c' st', rs st i = Ok (c', st') /\ erase c' = erase n /\ Inv st'.
+  exists c' st', rs st i = Ok (c', st') /\ erase c' = erase n /\ Inv st' /\ Step st st' /\
+                 forall a, In a (nodes c') -> G st' a.
 
+(* decoding the document of p: the root is a new object, what is known concerns its descendants *)
 Definition dec_ok (j : json) (p : pt) : Prop :=
-  forall st, Inv st -> exists p' st', decode rs j st = Ok (p', st') /\ erase p' = erase p /\ Inv st'.
+  forall st, Inv st -> exists p' st', decode rs j st = Ok (p', st') /\ erase p' = erase p /\ Inv st' /\ Step st st' /\
+                                      forall a, In a (descendants p') -> G st' a.
+(* decoding a child position (reference or inline unnamed object) *)
+Definition dec_ok_sub (j : json) (p : pt) : Prop :=
+  forall st, Inv st -> exists p' st', decode rs j st = Ok (p', st') /\ erase p' = erase p /\ Inv st' /\ Step st st' /\
+                                      forall a, In a (nodes p') -> G st' a.
 
-Lemma dec_sub c : Forall res_ok (nodes c) -> dec_ok (to_data c) c -> dec_ok (sub false to_data c) c.
+Lemma erase_id a b : erase a = erase b -> pt_id a = pt_id b.
+Proof. intros H. assert (pt_id (erase a) = pt_id (erase b)) by now rewrite H. now destruct a, b. Qed.
+
+Lemma dec_sub c : Forall res_ok (nodes c) -> dec_ok (to_data c) c -> dec_ok_sub (sub false to_data c) c.
 Proof.
-  intros Hr IH. unfold sub. destruct (pt_id c) as [i|] eqn:E; [|exact IH].
-  intros st Hst. rewrite decode_ref. rewrite nodes_cons in Hr. inversion Hr; subst. now apply H1.
+  intros Hr IH. unfold sub. destruct (pt_id c) as [i|] eqn:E.
+  - intros st Hst. rewrite decode_ref. rewrite nodes_cons in Hr. inversion Hr; subst. now apply H1.
+  - intros st Hst. destruct (IH st Hst) as (p' & st' & E1 & Ee & Hi & Hs & Hg).
+    exists p', st'. repeat (split; [assumption|]). intros a Ha. rewrite nodes_cons in Ha. destruct Ha as [<-|Ha]; [|auto].
+    apply G_unnamed. rewrite (erase_id _ _ Ee). exact E.
 Qed.
 
 Lemma dec_elems_ok subs :
-  Forall (fun c => dec_ok (sub false to_data c) c) subs ->
+  subs <> [] -> Forall (fun c => dec_ok_sub (sub false to_data c) c) subs ->
   forall st, Inv st -> exists subs' st', dec_elems (decode rs) (map (sub false to_data) subs) st = Ok (subs', st')
-                                          /\ map erase subs' = map erase subs /\ Inv st'.
+                                          /\ map erase subs' = map erase subs /\ Inv st' /\ Step st st' /\
+                                          forall a, In a (flat_map nodes subs') -> G st' a.
 Proof.
-  induction 1 as [|c r Hc Hr IH]; intros st Hst; cbn.
-  - exists [], st. auto.
-  - destruct (Hc st Hst) as (c' & st1 & E1 & Ee & H1). rewrite E1. cbn.
-    destruct (IH st1 H1) as (r' & st2 & E2 & Er & H2). rewrite E2. cbn.
-    exists (c' :: r'), st2. cbn. now rewrite Ee, Er.
+  intros Hne H. induction H as [|c r Hc Hr IH]; [congruence|]. intros st Hst. cbn [map dec_elems].
+  destruct (Hc st Hst) as (c' & st1 & E1 & Ee & H1 & S1 & G1). rewrite E1. cbn [bind].
+  destruct r as [|c2 r2].
+  - cbn. exists [c'], st1. cbn. rewrite Ee, app_nil_r. auto.
+  - destruct (IH ltac:(discriminate) st1 H1) as (r' & st2 & E2 & Er & H2 & S2 & G2). rewrite E2. cbn [bind].
+    exists (c' :: r'), st2. cbn [map flat_map]. rewrite Ee, Er. repeat (split; [eauto|]).
+    intros a Ha. apply in_app_or in Ha as [Ha|Ha]; [eapply G_mono; eauto|auto].
 Qed.
 
-Lemma dec_field_sub c : dec_ok (sub false to_data c) c ->
+Lemma dec_field_sub c : dec_ok_sub (sub false to_data c) c ->
   forall st, Inv st -> exists c' st', dec_field_val (decode rs) (sub false to_data c) st = Ok (DSub c', st')
-                                      /\ erase c' = erase c /\ Inv st'.
+                                      /\ erase c' = erase c /\ Inv st' /\ Step st st' /\ forall a, In a (nodes c') -> G st' a.
 Proof.
-  intros H st Hst. destruct (H st Hst) as (c' & st' & E & Ee & Hi).
+  intros H st Hst. destruct (H st Hst) as (c' & st' & E & Ee & Hi & Hs & Hg).
   pose proof (sub_typed c) as T. destruct (sub false to_data c) eqn:Es; try discriminate.
-  cbn [is_typed] in T. cbn [dec_field_val]. rewrite T. rewrite E. cbn. eauto.
+  cbn [is_typed] in T. cbn [dec_field_val]. rewrite T. rewrite E. cbn. eauto 8.
 Qed.
 
 Lemma dec_field_subs subs : subs <> [] ->
-  Forall (fun c => dec_ok (sub false to_data c) c) subs ->
+  Forall (fun c => dec_ok_sub (sub false to_data c) c) subs ->
   forall st, Inv st -> exists subs' st', dec_field_val (decode rs) (JList (map (sub false to_data) subs)) st = Ok (DSubs subs', st')
-                                          /\ map erase subs' = map erase subs /\ Inv st'.
+                                          /\ map erase subs' = map erase subs /\ Inv st' /\ Step st st' /\
+                                          forall a, In a (flat_map nodes subs') -> G st' a.
 Proof.
-  intros Hne H st Hst. destruct (dec_elems_ok subs H st Hst) as (s' & st' & E & Ee & Hi).
+  intros Hne H st Hst. destruct (dec_elems_ok subs Hne H st Hst) as (s' & st' & E & Ee & Hi & Hs & Hg).
   cbn [dec_field_val].
   assert (negb (is_nil (map (sub false to_data) subs)) && forallb is_typed (map (sub false to_data) subs) = true) as ->.
   { assert (forallb is_typed (map (sub false to_data) subs) = true) as ->.
     { rewrite forallb_forall. intros x Hx. apply in_map_iff in Hx as (c & <- & _). apply sub_typed. }
     destruct subs; [congruence|reflexivity]. }
-  rewrite E. cbn. eauto.
+  rewrite E. cbn. eauto 8.
 Qed.
 
 Arguments enc_expr : simpl never.
@@ -321,7 +346,13 @@ Ltac parsers :=
 Ltac optf k enc l := destruct (opt_field_cases k enc l) as [[-> ->]| ->].
 Ltac split_and := repeat match goal with H : _ && _ = true |- _ => apply andb_prop in H as [? ?] end.
 Ltac close := cbn [erase]; unfold eh; cbn [h_id]; congruence.
-Ltac done_ok := eexists; eexists; split; [reflexivity|split; [|apply Inv_bump; assumption]].
+Ltac step := repeat (eapply Step_trans; [eassumption|]); apply Step_bump.
+Ltac gdesc := let a := fresh "a" in let Ha := fresh "Ha" in
+  intros a Ha; unfold descendants in Ha; cbn [nodes tl] in Ha;
+  first [ contradiction
+        | apply in_app_or in Ha as [Ha|Ha]; (eapply G_mono; [|eauto]); step
+        | (eapply G_mono; [|eauto]); step ].
+Ltac done_ok := eexists; eexists; split; [reflexivity|split; [|split; [apply Inv_bump; assumption|split; [step|gdesc]]]].
 
 Lemma nonnil {A} (l : list A) : negb (is_nil l) = true -> l <> [].
 Proof. destruct l; [discriminate|congruence]. Qed.
@@ -347,15 +378,17 @@ Ltac named_nonempty := try match goal with H : ok_id {| h_oid := _; h_id := Some
 Ltac fin := named_nonempty; cbn; parsers.
 Ltac use_sub Hc st Hst :=
   let c' := fresh "c'" in let st1 := fresh "st1" in let E := fresh "E" in let Ee := fresh "Ee" in let Hi := fresh "Hi" in
-  destruct (dec_field_sub _ Hc st Hst) as (c' & st1 & E & Ee & Hi); rewrite E; cbn [bind fst snd dec_fields].
+  let Hs := fresh "Hs" in let Hg := fresh "Hg" in
+  destruct (dec_field_sub _ Hc st Hst) as (c' & st1 & E & Ee & Hi & Hs & Hg); rewrite E; cbn [bind fst snd dec_fields].
 Ltac use_subs Hne Hc st Hst :=
   let c' := fresh "s'" in let st1 := fresh "st1" in let E := fresh "E" in let Ee := fresh "Ee" in let Hi := fresh "Hi" in
-  destruct (dec_field_subs _ Hne Hc st Hst) as (c' & st1 & E & Ee & Hi); rewrite E; cbn [bind fst snd dec_fields].
+  let Hs := fresh "Hs" in let Hg := fresh "Hg" in
+  destruct (dec_field_subs _ Hne Hc st Hst) as (c' & st1 & E & Ee & Hi & Hs & Hg); rewrite E; cbn [bind fst snd dec_fields].
 
 Ltac use_subsN subs Hc st Hst := match goal with Hn : negb (is_nil subs) = true |- _ => use_subs (nonnil _ Hn) Hc st Hst end.
 
 Lemma child_ok c : (wf c = true -> Forall res_ok (descendants c) -> dec_ok (to_data c) c) ->
-  wf c = true -> Forall res_ok (nodes c) -> dec_ok (sub false to_data c) c.
+  wf c = true -> Forall res_ok (nodes c) -> dec_ok_sub (sub false to_data c) c.
 Proof.
   intros IH Hw Hr. apply dec_sub; [exact Hr|]. apply IH; [exact Hw|]. rewrite nodes_cons in Hr. now inversion Hr.
 Qed.
@@ -363,7 +396,7 @@ Qed.
 Lemma children_ok subs :
   Forall (fun c => wf c = true -> Forall res_ok (descendants c) -> dec_ok (to_data c) c) subs ->
   forallb wf subs = true -> Forall res_ok (flat_map nodes subs) ->
-  Forall (fun c => dec_ok (sub false to_data c) c) subs.
+  Forall (fun c => dec_ok_sub (sub false to_data c) c) subs.
 Proof.
   induction 1 as [|c r Hc Hr IH]; intros Hw Hres; [constructor|].
   cbn in Hw, Hres. apply andb_prop in Hw as [Hw1 Hw2]. apply Forall_app in Hres as [R1 R2].
@@ -388,51 +421,51 @@ Proof.
   - (* Constant *)
     hdr_split h; raws; fin; done_ok; reflexivity.
   - (* Sequence *)
-    assert (Hc : Forall (fun c => dec_ok (sub false to_data c) c) subs) by (apply children_ok; auto).
+    assert (Hc : Forall (fun c => dec_ok_sub (sub false to_data c) c) subs) by (apply children_ok; auto).
     hdr_split h; optf "parameter_constraints" enc_strs c; optf "measurements" enc_measl m;
       cbn [app dec_fields fst snd]; raws; use_subsN subs Hc st Hst; raws; fin.
     all: match goal with Hn : negb (is_nil ?l) = true, Ee : map erase ?s = map erase ?l |- _ =>
                 rewrite (is_nil_map_eq _ _ _ Ee), (nonnil_b _ Hn) end; cbn [bind]; done_ok; close.
   - (* Repetition *)
-    assert (Hc : dec_ok (sub false to_data p) p) by (apply child_ok; auto).
+    assert (Hc : dec_ok_sub (sub false to_data p) p) by (apply child_ok; auto).
     hdr_split h; optf "parameter_constraints" enc_strs c; optf "measurements" enc_measl m;
       cbn [app dec_fields fst snd]; raws; use_sub Hc st Hst; raws; fin; done_ok; close.
   - (* ForLoop *)
-    assert (Hc : dec_ok (sub false to_data p) p) by (apply child_ok; auto).
+    assert (Hc : dec_ok_sub (sub false to_data p) p) by (apply child_ok; auto).
     destruct r as [[ra rb] rc].
     hdr_split h; optf "parameter_constraints" enc_strs c; optf "measurements" enc_measl m;
       cbn [app dec_fields fst snd]; raws; use_sub Hc st Hst; raws; fin; done_ok; close.
   - (* Mapping *)
-    assert (Hc : dec_ok (sub false to_data p) p) by (apply child_ok; auto).
+    assert (Hc : dec_ok_sub (sub false to_data p) p) by (apply child_ok; auto).
     hdr_split h; optf "parameter_mapping" enc_pmap pm; optf "measurement_mapping" enc_mmap mm;
       optf "channel_mapping" (enc_cmap key_chan) cm; optf "parameter_constraints" enc_strs c;
       cbn [app dec_fields fst snd]; raws; use_sub Hc st Hst; raws; fin.
     all: match goal with Ee : erase ?c = erase ?p, Hn : negb (is_anon_map_without_constraints ?p) = true |- _ =>
            rewrite (anon_map_sim _ _ Ee Hn) end; cbn [bind]; done_ok; close.
   - (* AtomicMulti *)
-    assert (Hc : Forall (fun c => dec_ok (sub false to_data c) c) subs) by (apply children_ok; auto).
+    assert (Hc : Forall (fun c => dec_ok_sub (sub false to_data c) c) subs) by (apply children_ok; auto).
     hdr_split h; optf "parameter_constraints" enc_strs c; optf "measurements" enc_measl m; destruct du as [du|];
       cbn [some_field app dec_fields fst snd]; raws; use_subsN subs Hc st Hst; raws; fin.
     all: match goal with Hn : negb (is_nil ?l) = true, Ee : map erase ?s = map erase ?l |- _ =>
                 rewrite (is_nil_map_eq _ _ _ Ee), (nonnil_b _ Hn) end; cbn [bind]; done_ok; close.
   - (* Parallel *)
-    assert (Hc : dec_ok (sub false to_data p) p) by (apply child_ok; auto).
+    assert (Hc : dec_ok_sub (sub false to_data p) p) by (apply child_ok; auto).
     hdr_split h; raws; use_sub Hc st Hst; raws; fin; done_ok; close.
   - (* Arithmetic *)
-    assert (Hc : dec_ok (sub false to_data p) p) by (apply child_ok; auto).
+    assert (Hc : dec_ok_sub (sub false to_data p) p) by (apply child_ok; auto).
     change (match sc with SExpr _ => true | SMap m => str_keys m end) with (scalar_ok sc) in *.
     hdr_split h; destruct l; cbn [app dec_fields fst snd]; raws; use_sub Hc st Hst; raws; fin;
       rewrite dscalar_ok by assumption; cbn [bind]; done_ok; close.
   - (* ArithmeticAtomic *)
     cbn [descendants nodes tl] in Hres. apply Forall_app in Hres as [R1 R2].
-    assert (Hc1 : dec_ok (sub false to_data p1) p1) by (apply child_ok; auto).
-    assert (Hc2 : dec_ok (sub false to_data p2) p2) by (apply child_ok; auto).
+    assert (Hc1 : dec_ok_sub (sub false to_data p1) p1) by (apply child_ok; auto).
+    assert (Hc2 : dec_ok_sub (sub false to_data p2) p2) by (apply child_ok; auto).
     hdr_split h; optf "measurements" enc_measl m; cbn [app dec_fields fst snd]; raws.
-    all: destruct (dec_field_sub _ Hc2 st Hst) as (c2 & st2 & E2 & Ee2 & Hi2); rewrite E2; cbn [bind fst snd dec_fields].
-    all: destruct (dec_field_sub _ Hc1 st2 Hi2) as (c1 & st3 & E1 & Ee1 & Hi1); rewrite E1; cbn [bind fst snd dec_fields].
+    all: destruct (dec_field_sub _ Hc2 st Hst) as (c2 & st2 & E2 & Ee2 & Hi2 & Hs2 & Hg2); rewrite E2; cbn [bind fst snd dec_fields].
+    all: destruct (dec_field_sub _ Hc1 st2 Hi2) as (c1 & st3 & E1 & Ee1 & Hi1 & Hs1 & Hg1); rewrite E1; cbn [bind fst snd dec_fields].
     all: raws; fin; done_ok; close.
   - (* TimeReversal *)
-    assert (Hc : dec_ok (sub false to_data p) p) by (apply child_ok; auto).
+    assert (Hc : dec_ok_sub (sub false to_data p) p) by (apply child_ok; auto).
     hdr_split h; raws; use_sub Hc st Hst; raws; fin; done_ok; close.
   - (* Abstract *)
     hdr_split h; destruct ch, pn, mn, ig, du; cbn [some_field app dec_fields fst snd]; raws; fin; done_ok; reflexivity.
@@ -535,13 +568,14 @@ Proof.
   - cbn [load]. destruct (lookup i (l_cache st)) as [q|] eqn:EL.
     + destruct (Hst i q EL) as (n0 & Hn0 & Hi0 & He). rewrite (HC n n0 i Hn Hn0 Hi Hi0). eauto.
     + rewrite (HB n i Hn Hi).
-      destruct (decode_core (load f be) (cache_ok P)) with (p := n) (st := st) as (p' & st' & E & Ee & Hi').
-      * intros s Hs. exact Hs.
+      destruct (decode_core (load f be) (cache_ok P) (fun _ _ => True) (fun _ _ => True)) with (p := n) (st := st)
+        as (p' & st' & E & Ee & Hi' & _); auto.
       * eapply wf_nodes; eauto.
-      * apply Forall_forall. intros m Hm j Hj s Hs. apply IH; auto.
+      * apply Forall_forall. intros m Hm j Hj s Hs.
+        destruct (IH m j) with (st := s) as (q & s' & E1 & E2 & E3); auto.
         -- eapply nodes_trans; eauto. rewrite nodes_cons. now right.
         -- apply size_lt in Hm. lia.
-      * exact Hst.
+        -- exists q, s'. auto.
       * rewrite E. cbn [bind]. eexists; eexists; split; [reflexivity|split; [exact Ee|]].
         intros j q. cbn [l_cache lookup]. destruct (String.eqb j i) eqn:Eji.
         -- apply String.eqb_eq in Eji as ->. intros [= <-]. eauto.
@@ -554,7 +588,8 @@ Lemma roundtrip_node p rs : wf p = true ->
   forall st, exists p' st', decode rs (to_data p) st = Ok (p', st') /\ erase p' = erase p.
 Proof.
   intros Hw Hr st.
-  destruct (decode_core rs (fun _ => True)) with (p := p) (st := st) as (p' & st' & E & Ee & _); auto.
+  destruct (decode_core rs (fun _ => True) (fun _ _ => True) (fun _ _ => True)) with (p := p) (st := st)
+    as (p' & st' & E & Ee & _); auto.
   - apply Forall_forall. intros n Hn i Hi s _. exists n, s. rewrite (Hr n i Hn Hi s). auto.
   - eauto.
 Qed.
